@@ -10,6 +10,20 @@ sys.path.insert(0, HERE)
 ALL = [f"C{i:02d}" for i in range(1, 18)]
 BASELINE_OFF = "cd /repo && env -u PTA_VERIF_MONITORS /venv/bin/python -m pytest -ra -q -p no:cacheprovider --timeout=900 --continue-on-collection-errors"
 
+COMMON_TEXT = (
+    " Part of the workload (all of it for C13 / C16) is repeated under other interpreter settings - python -O, library warnings as errors, "
+    "-X dev -B from an empty working directory, PYTHONIOENCODING=ascii with extra environment variables - and with the caller varied: arguments "
+    "by keyword / by position, names as str-subclass / Enum members, rules written as statements on one name, kept objects copied "
+    "(deepcopy / pickle), looked at (str / repr / properties) and re-used while earlier architectures die and their addresses are re-used."
+)
+EXTRA_TEXT = {
+    "C01": " The idiom 'sub modules of X ... anything except X' (both readings of the ambiguity agree) is judged by the model as well.",
+    "C02": " Scans also follow each other back to back, follow a failed scan, and re-read a tree that was edited in place with identical sizes and time stamps.",
+    "C08": " Degenerate projects and patterns ('*', '**', '', patterns matching module_path itself, shell metacharacters in names) are scanned through five ways of calling the two entry points.",
+    "C09": " Limits far beyond the depth (10^6, sys.maxsize) and flattened architectures used through a deepcopy / pickle copy are included.",
+    "C10": " Without a level limit the external side is exact: every module outside module_path and every import of one must be accounted for by a reading of an import statement of the importer; every tree is also scanned with relative paths and with Path objects.",
+    "C15": " Scan results must not depend on the spelling of the paths (Path objects with '..'), on earlier contents of the same path, or on earlier failed scans.",
+}
 checks, na = [], []
 for pid in ALL:
     path = os.path.join(HERE, "pta_verif", "props", pid.lower() + ".py")
@@ -27,7 +41,7 @@ for pid in ALL:
             "engine": "pta_verif",
             "level_claimed": {
                 "category": getattr(m, "LEVEL", "exploration"),
-                "text": m.LEVEL_TEXT,
+                "text": m.LEVEL_TEXT + COMMON_TEXT + EXTRA_TEXT.get(pid, ""),
                 "design_ref": f"DESIGN.md section 2, {pid}",
             },
             "level_note": m.LEVEL_NOTE,
